@@ -241,7 +241,7 @@ func RunC06(c *lib.Ctx) {
 			c.Sample(p)
 		}
 	})
-	runRaceDiagInfo(c, "c06-race")
+	runRaceDiagInfo(c, "c10-race-cluster")
 }
 
 func runC06Plan(c *lib.Ctx, p c06plan, attempt int) string {
